@@ -3,10 +3,14 @@
 (* C16 -- Save, upsert and FirstOrCreate/FirstOrInit converge to the       *)
 (* documented state.                                                       *)
 (* Table: id -> [a, b, del].  Operations (flat records):                   *)
-(*   [op |-> "save",   id, a, b]                     id 0 = new record     *)
+(*   [op |-> "save",   id, a, b, omit]               id 0 = new record     *)
+(*        omit: Omit("B") precedes Save -- b keeps its stored value (0 in  *)
+(*        a new row), everything else as without it                        *)
 (*   [op |-> "upsert", id, a, b, rule]   rule in nothing all ca cb cab     *)
 (*   [op |-> "foi" | "foc", ca, attr, asg]                                 *)
 (*        condition a = ca ; Attrs b = attr (0 = none); Assign b = asg     *)
+(*        attra # 0: Attrs also names a -- on a miss the Attrs value, not  *)
+(*        the condition's, initialises the record (both finishers)         *)
 (*   [op |-> "savec", k1, k2, a, b]   Save on a second table with the      *)
 (*        composite key (k1, k2); a zero part is an ordinary key value     *)
 (*   [op |-> "upsertu", k1, k2, u, a, b]  Create with ON CONFLICT (u)      *)
@@ -26,8 +30,9 @@ Put(t, id, r) == [i \in DOMAIN t \cup {id} |-> IF i = id THEN r ELSE t[i]]
 \* result: [ret |-> record returned / left in the caller's value, wrote |-> set of ids written]
 Step0(st, o) ==
   CASE o.op = "save" ->
-         LET id == IF o.id = 0 THEN st.next ELSE o.id IN
-         [t |-> Put(st.t, id, [a |-> o.a, b |-> o.b, del |-> FALSE]),       \* the full value, whether or not the key existed
+         LET id == IF o.id = 0 THEN st.next ELSE o.id
+             b2 == IF ~o.omit THEN o.b ELSE IF id \in DOMAIN st.t THEN st.t[id].b ELSE 0 IN
+         [t |-> Put(st.t, id, [a |-> o.a, b |-> b2, del |-> FALSE]),        \* the full value, whether or not the key existed
           next |-> IF id >= st.next THEN id + 1 ELSE st.next,
           ret |-> [id |-> id, a |-> o.a, b |-> o.b], wrote |-> {id}]
     [] o.op = "upsert" ->
@@ -52,11 +57,12 @@ Step0(st, o) ==
                   next |-> st.next,
                   ret |-> [id |-> id, a |-> r.a, b |-> b2],
                   wrote |-> IF o.op = "foc" /\ o.asg # 0 /\ o.asg # r.b THEN {id} ELSE {}]
-         ELSE LET b2 == IF o.asg # 0 THEN o.asg ELSE o.attr IN
+         ELSE LET b2 == IF o.asg # 0 THEN o.asg ELSE o.attr
+                  a2 == IF o.attra # 0 THEN o.attra ELSE o.ca IN
               IF o.op = "foi"
-              THEN [t |-> st.t, next |-> st.next, ret |-> [id |-> 0, a |-> o.ca, b |-> b2], wrote |-> {}]
-              ELSE [t |-> Put(st.t, st.next, [a |-> o.ca, b |-> b2, del |-> FALSE]), next |-> st.next + 1,
-                    ret |-> [id |-> st.next, a |-> o.ca, b |-> b2], wrote |-> {st.next}]
+              THEN [t |-> st.t, next |-> st.next, ret |-> [id |-> 0, a |-> a2, b |-> b2], wrote |-> {}]
+              ELSE [t |-> Put(st.t, st.next, [a |-> a2, b |-> b2, del |-> FALSE]), next |-> st.next + 1,
+                    ret |-> [id |-> st.next, a |-> a2, b |-> b2], wrote |-> {st.next}]
 
 \* st.c: the composite-key table, <<k1, k2>> -> [a, b, u]   (u unique; Save sets u = 10 * k1 + k2)
 Step(st, o) ==
@@ -97,9 +103,9 @@ CONSTANTS MaxOps, Vals
 InitT == (1 :> [a |-> 1, b |-> 1, del |-> FALSE]) @@ (2 :> [a |-> 2, b |-> 2, del |-> TRUE])
 InitC == (<<1, 1>> :> [a |-> 1, b |-> 1, u |-> 11]) @@ (<<2, 1>> :> [a |-> 2, b |-> 2, u |-> 21])
 InitSt == [t |-> InitT, next |-> 3, c |-> InitC]
-Ops ==   {[op |-> "save", id |-> i, a |-> a, b |-> b] : i \in 0..3, a \in Vals, b \in {0} \cup Vals}
+Ops ==   {[op |-> "save", id |-> i, a |-> a, b |-> b, omit |-> om] : i \in 0..3, a \in Vals, b \in {0} \cup Vals, om \in BOOLEAN}
     \cup {[op |-> "upsert", id |-> i, a |-> a, b |-> b, rule |-> r] : i \in 1..3, a \in Vals, b \in Vals, r \in {"nothing", "all", "ca", "cb", "cab"}}
-    \cup {[op |-> f, ca |-> c, attr |-> at, asg |-> as] : f \in {"foi", "foc"}, c \in Vals \cup {3}, at \in {0, 5}, as \in {0, 7}}
+    \cup {[op |-> f, ca |-> c, attr |-> at, attra |-> aa, asg |-> as] : f \in {"foi", "foc"}, c \in Vals \cup {3}, at \in {0, 5}, aa \in {0, 2}, as \in {0, 7}}
     \cup {[op |-> "savec", k1 |-> k1, k2 |-> k2, a |-> 9, b |-> b] : k1 \in {1, 3}, k2 \in {0, 1}, b \in {0, 8}}
     \cup {[op |-> "upsertu", k1 |-> 5, k2 |-> k2, u |-> u, a |-> 9, b |-> b] : k2 \in {1, 2}, u \in {11, 99}, b \in {0, 8}}
 VARIABLES st, hist
